@@ -220,3 +220,13 @@
                 && (forall|k: Node| first_named_kid(n, name, k) ==> same_facet(new_v, match attr(k, "value"@) { Some(v) => Some(v), None => old_v })),
         }
     }
+//# section: node-spec
+    pub closed spec fn current_tns(d: RustDocument) -> Option<Rc<Namespace>> { d.current_target_namespace }
+    // C02: one component per top-level schema child, of the kind its tag says, in the namespace that is current when it has been read
+    // (that the Complex payload is what ComplexProps::try_from_node returned is not stated: `.into()` into a Box has no contract in this vstd)
+    pub open spec fn node_ok(n: Node, r: RustNode) -> bool {
+        &&& ((tag(n) == "complexType"@ || tag(n) == "group"@) ==> r.rust_type is Complex)
+        &&& (tag(n) == "simpleType"@ ==> r.rust_type is Simple)
+        &&& (tag(n) == "element"@ ==> r.rust_type is Element)
+        &&& (!(tag(n) == "complexType"@ || tag(n) == "group"@ || tag(n) == "simpleType"@ || tag(n) == "element"@) ==> r.rust_type is Ignore)
+    }
